@@ -43,6 +43,8 @@ var properties = map[string]*propSpec{
 		Rule: "runs of scenario mux; distinct = distinct canonical-log fingerprint; non-trivial = at least one injected fault or park fired and at least one operation completed"},
 	"C07": {Level: "exploration", Scenarios: []scenRef{{Name: "wr", quickS: 20, thoroughS: 600}}, CrashProperty: "C07",
 		Rule: "runs of scenario wr; distinct = distinct canonical-log fingerprint; non-trivial = at least one write fault, cancel or park fired and at least one operation completed"},
+	"C11": {Level: "exploration", Scenarios: []scenRef{{Name: "pick", quickS: 15, thoroughS: 600}},
+		Rule: "runs of scenario pick: generated cluster layouts and add/remove/up/down/keyspace histories against a host-set model, picks iterated to exhaustion, plus scheduled picks racing mutations; distinct = distinct canonical-log fingerprint; non-trivial = at least one state-changing history op was applied and at least one checked pick with two or more known hosts completed"},
 	"C08": {Level: "exploration", Scenarios: []scenRef{{Name: "ids", quickS: 15, thoroughS: 600, Extra: []string{"-sim.nofaultevery=0"}}}, CrashProperty: "C08",
 		Rule: "runs of scenario ids: tape-chosen interleavings of the allocator's atomic steps; distinct = distinct canonical-log fingerprint; non-trivial = at least one park fired (two callers inside the allocator at once) and at least one operation completed"},
 	"C06": {Level: "exploration", Scenarios: []scenRef{{Name: "mux", quickS: 20, thoroughS: 600}}, CrashProperty: "C06", DeadlockProperty: "C06",
